@@ -5,7 +5,7 @@
 //   case  =  <traits: N | 0..7 (POCCA*4+POCMA*2+POCS) | 8 (std::allocator) | 16..23 (throwing allocator assignment)> <kind> <op> <sstate> <tstate> <sid> <tid> <aid> <post>
 //   kind  :  native TU (-DNATIVE): Array ArrayIC Seg HashSet HashMap HashMulti TreeSet TreeMap
 //            wrapper TU (-DTRAITS=k): vec set mset map mmap uset umap ummap
-//   op    :  copyc copyca movec moveca copya movea swap selfcopya selfmovea selfswap none
+//   op    :  copyc copyca movec moveca copya movea swap selfcopya selfmovea selfswap none merge(TreeSet/TreeMap, empty target)
 //   state :  e | n<k> | c<k> (k inserted, all erased) | g<k> (hash: growth refused -> overloaded table) | h<k> (hash: relocation interrupted -> several generations) |
 //            d<k> (deep tree) | v<k> (multimap: every 2nd key value-less) | i<k> (internal capacity)
 //   post  :  none clear swapf fswap massign cassign reuse       (applied to the source S after op; F = fresh, id aid)
@@ -25,6 +25,9 @@
 #include <momo/HashMultiMap.h>
 #include <momo/TreeSet.h>
 #include <momo/TreeMap.h>
+#ifdef NATIVE
+#include <momo/DataTable.h>
+#endif
 #ifndef NATIVE
 #include <momo/stdish/vector.h>
 #include <momo/stdish/set.h>
@@ -52,6 +55,43 @@ static bool g_value_error = false;
 static bool g_unusual = false;
 static int64_t g_base = 1000;
 
+
+// ---- structure descriptions (round 2): the object graph behind a container, as a string without blanks
+//   hash : H<items in newest bucket array>.<next>...      (H = no bucket array)
+//   tree : T<node params present>:<depth>.<items>,...     nodes in preorder
+//   multi: M<bucket arrays of the key map>:<keys>.<value-less keys>
+//   table: D<rows>.<raws waiting in the crew's freeRaws list>
+template<typename HS> static std::string hash_structure(const HS& hs)
+{
+	std::string r = "H"; bool first = true;
+	for (auto* bk = hs.mBuckets; bk != nullptr; bk = bk->GetNextBuckets())
+	{
+		size_t n = 0; auto& params = bk->GetBucketParams();
+		for (auto& bucket : *bk) n += bucket.GetBounds(params).GetCount();
+		if (!first) r += "."; first = false; r += std::to_string(n);
+	}
+	return r;
+}
+template<typename Node> static void tree_walk(Node* node, int depth, std::string& r)
+{
+	if (r.back() != ':') r += ",";
+	r += std::to_string(depth) + "." + std::to_string(node->GetCount());
+	if (!node->IsLeaf()) for (size_t i = 0; i <= node->GetCount(); ++i) tree_walk(node->GetChild(i), depth + 1, r);
+}
+template<typename TS> static std::string tree_structure(const TS& ts)
+{
+	std::string r = std::string("T") + (ts.mNodeParams != nullptr ? "1" : "0") + ":";
+	if (ts.mRootNode != nullptr) tree_walk(ts.mRootNode, 0, r);
+	return r;
+}
+template<typename MM_> static std::string multi_structure(const MM_& mm)
+{
+	size_t gens = 0; for (auto* bk = mm.mHashMap.mHashSet.mBuckets; bk != nullptr; bk = bk->GetNextBuckets()) ++gens;
+	size_t keys = 0, vl = 0;
+	for (auto ref : mm.GetKeyBounds()) { ++keys; if (ref.GetCount() == 0) ++vl; }
+	return "M" + std::to_string(gens) + ":" + std::to_string(keys) + "." + std::to_string(vl);
+}
+
 template<typename C> struct SeqAd      // Array / SegmentedArray / stdish::vector
 {
 	static const bool crew = false; static const bool multi = true;
@@ -77,6 +117,8 @@ template<typename C, bool IsSeg> struct NatSeq
 	static C copy_with(const C& c, int id) { return C(c, MM(id)); }
 	static C move_with(C&& c, int) { return C(std::move(c)); }
 	static void unusual(C&, char, int) {}
+	static std::string structure(const C&) { return "A"; }
+	static bool find(const C& c, int64_t x) { for (const E& e : c) if (e.Value() == x) return true; return false; }
 };
 typedef momo::Array<E, MM> NArray;
 typedef momo::Array<E, MM, momo::ArrayItemTraits<E, MM>, momo::ArraySettings<4>> NArrayIC;
@@ -98,18 +140,23 @@ template<typename C, typename El> struct NatSet
 };
 typedef momo::HashTraitsStd<E, Hash, Eq> HTraits;
 typedef momo::HashSet<E, HTraits, MM> NHashSet;
-typedef momo::TreeTraitsStd<E, Less, false, momo::TreeNode<4, 2>> TTraits;
+typedef momo::TreeTraits<E, false, momo::TreeNode<4, 2>> TTraits;      // empty traits class: enables the MergeTo fast paths (c7fda03)
 typedef momo::TreeSet<E, TTraits, MM> NTreeSet;
 
 template<typename C> static void overload_hash(C& c, int n, int64_t base);
 struct AdHashSet : NatSet<NHashSet, E>
 {
 	static NHashSet make(int id) { return NHashSet(HTraits(), MM(id)); }
+	static std::string structure(const NHashSet& c) { return hash_structure(c); }
+	static bool find(const NHashSet& c, int64_t v) { return c.ContainsKey(E(v)); }
 	static void unusual(NHashSet& c, char kind, int n);
 };
 struct AdTreeSet : NatSet<NTreeSet, E>
 {
 	static NTreeSet make(int id) { return NTreeSet(TTraits(), MM(id)); }
+	static std::string structure(const NTreeSet& c) { return tree_structure(c); }
+	static void merge(NTreeSet& dst, NTreeSet& src) { dst.MergeFrom(src); }
+	static bool find(const NTreeSet& c, int64_t v) { return c.ContainsKey(E(v)); }
 	static void unusual(NTreeSet&, char, int) { g_unusual = true; }
 };
 
@@ -137,12 +184,17 @@ typedef momo::HashMultiMap<E, E, HTraits, MM> NHashMulti;
 struct AdHashMap : NatMap<NHashMap>
 {
 	static NHashMap make(int id) { return NHashMap(HTraits(), MM(id)); }
+	static std::string structure(const NHashMap& c) { return hash_structure(c.mHashSet); }
+	static bool find(const NHashMap& c, int64_t v) { return c.ContainsKey(E(v)); }
 	static int id(const NHashMap& c) { return c.mHashSet.mCrew.mData == nullptr ? -1 : mm_id(c); }
 	static void unusual(NHashMap& c, char kind, int n);
 };
 struct AdTreeMap : NatMap<NTreeMap>
 {
 	static NTreeMap make(int id) { return NTreeMap(TTraits(), MM(id)); }
+	static std::string structure(const NTreeMap& c) { return tree_structure(c.mTreeSet); }
+	static void merge(NTreeMap& dst, NTreeMap& src) { dst.MergeFrom(src); }
+	static bool find(const NTreeMap& c, int64_t v) { return c.ContainsKey(E(v)); }
 	static int id(const NTreeMap& c) { return c.mTreeSet.mCrew.mData == nullptr ? -1 : mm_id(c); }
 	static void unusual(NTreeMap&, char, int) { g_unusual = true; }
 };
@@ -150,6 +202,8 @@ struct AdHashMulti
 {
 	typedef NHashMulti Cont; typedef Cont C; static const bool crew = true, multi = true, alloc_move_ctor = false, is_stdish = false;
 	static C make(int id) { return C(HTraits(), MM(id)); }
+	static std::string structure(const C& c) { return multi_structure(c); }
+	static bool find(const C& c, int64_t v) { return c.ContainsKey(E(v)); }
 	static void ins(C& c, int64_t v) { c.Add(E(v), E(v + 7)); }
 	static void erase_all(C& c) { Vals k = contents(c); for (int64_t v : k) c.RemoveKey(E(v)); while (c.GetKeyCount() > 0) c.RemoveKey(c.GetKeyBounds().GetBegin()->key); }
 	static void erase1(C& c, int64_t v) { c.RemoveKey(E(v)); }
@@ -172,6 +226,47 @@ struct AdHashMulti
 		Vals k = contents(c); k.erase(std::unique(k.begin(), k.end()), k.end());
 		for (size_t i = 0; i < k.size(); i += 2) { auto it = c.Find(E(k[i])); c.RemoveValues(it); }
 		g_unusual = c.GetKeyCount() > 0; (void)n;
+	}
+};
+
+struct Rw { int64_t k; E v; };
+MOMO_DATA_COLUMN_STRUCT(Rw, k);
+MOMO_DATA_COLUMN_STRUCT(Rw, v);
+typedef momo::DataColumnListStatic<Rw, momo::DataColumnInfo<Rw>, MM> TColumns;
+typedef momo::DataTable<TColumns> NTable;
+struct AdTable
+{
+	typedef NTable Cont; typedef Cont C; static const bool crew = true, multi = true, alloc_move_ctor = false, is_stdish = false;
+	static C make(int id) { return C(TColumns(MM(id))); }
+	static void ins(C& c, int64_t x) { NTable::Row row = c.NewRow(); row[k] = x; row[v] = E(x + 7); c.Add(std::move(row)); }
+	static void erase_all(C& c) { while (c.GetCount() > 0) c.Remove(c.GetCount() - 1); }
+	static void erase1(C& c, int64_t x) { for (size_t i = c.GetCount(); i > 0; --i) if (c[i - 1][k] == x) { c.Remove(i - 1); return; } }
+	static Vals contents(const C& c)
+	{
+		Vals r;
+		for (size_t i = 0; i < c.GetCount(); ++i) { auto ref = c[i]; r.push_back(ref[k]); if (ref[v].Value() != ref[k] + 7) g_value_error = true; }
+		std::sort(r.begin(), r.end()); return r;
+	}
+	static bool find(const C& c, int64_t x) { for (size_t i = 0; i < c.GetCount(); ++i) if (c[i][k] == x) return true; return false; }
+	static int id(const C& c) { return c.mCrew.mData == nullptr ? -1 : mm_id(c); }
+	static size_t count(const C& c) { return c.GetCount(); }
+	static void clear(C& c) { c.Clear(); }
+	static void swap(C& a, C& b) { a.Swap(b); }
+	static C copy_with(const C& c, int) { return C(c); }
+	static C move_with(C&& c, int) { return C(std::move(c)); }
+	static std::string structure(const C& c)
+	{
+		size_t fr = 0;
+		if (c.mCrew.mData != nullptr)
+			for (void* raw = c.mCrew.mData->freeRaws.load(); raw != nullptr; raw = momo::internal::MemCopyer::FromBuffer<void*>(raw)) ++fr;
+		return "D" + std::to_string(c.GetCount()) + "." + std::to_string(fr);
+	}
+	static void unusual(C& c, char kind, int)
+	{
+		if (kind != 'f') return;
+		// two rows are extracted and their Row objects destroyed: the raws wait in the crew's freeRaws list
+		for (int i = 0; i < 2 && c.GetCount() > 0; ++i) { NTable::Row row = c.Extract(c.GetCount() - 1); }
+		g_unusual = true;
 	}
 };
 #else
@@ -211,6 +306,8 @@ struct AdVec
 {
 	typedef SVec Cont; typedef Cont C; static const bool crew = false, multi = true, alloc_move_ctor = true, is_stdish = true;
 	static C make(int id) { return C(mk_al<E>(id)); }
+	static std::string structure(const C&) { return "A"; }
+	static bool find(const C& c, int64_t x) { for (const E& e : c) if (e.Value() == x) return true; return false; }
 	static void ins(C& c, int64_t v) { c.push_back(E(v)); }
 	static void erase_all(C& c) { while (!c.empty()) c.pop_back(); }
 	static void erase1(C& c, int64_t) { c.pop_back(); }
@@ -228,6 +325,8 @@ template<typename C, bool Multi> struct StdSetAd
 {
 	typedef C Cont; static const bool crew = true, multi = Multi, alloc_move_ctor = true, is_stdish = true;
 	static void ins(C& c, int64_t v) { c.insert(E(v)); }
+	static bool find(const C& c, int64_t v) { return c.find(E(v)) != c.end(); }
+	static void ilist(C& c) { c = { E(400001), E(400004) }; }
 	static void erase_all(C& c) { while (!c.empty()) c.erase(c.begin()); }
 	static void erase1(C& c, int64_t v) { c.erase(E(v)); }
 	static Vals contents(const C& c) { Vals r; for (const E& e : c) r.push_back(e.Value()); std::sort(r.begin(), r.end()); return r; }
@@ -243,12 +342,14 @@ typedef momo::stdish::unordered_set<E, Hash, Eq, Al<E>> SUSet;
 struct AdSet : StdSetAd<SSet, false>
 {
 	static SSet make(int id) { return SSet(Less(), mk_al<E>(id)); }
+	static std::string structure(const SSet& c) { return tree_structure(c.mTreeSet); }
 	static int id(const SSet& c) { return c.mTreeSet.mCrew.mData == nullptr ? -1 : al_id(c.get_allocator()); }
 	static void unusual(SSet&, char, int) { g_unusual = true; }
 };
 struct AdMSet : StdSetAd<SMSet, true>
 {
 	static SMSet make(int id) { return SMSet(Less(), mk_al<E>(id)); }
+	static std::string structure(const SMSet& c) { return tree_structure(c.mTreeSet); }
 	static int id(const SMSet& c) { return c.mTreeSet.mCrew.mData == nullptr ? -1 : al_id(c.get_allocator()); }
 	static void unusual(SMSet&, char, int) { g_unusual = true; }
 };
@@ -256,6 +357,7 @@ template<typename HS> static void overload_hash_set(HS& hs, std::function<void(i
 struct AdUSet : StdSetAd<SUSet, false>
 {
 	static SUSet make(int id) { return SUSet(0, Hash(), Eq(), mk_al<E>(id)); }
+	static std::string structure(const SUSet& c) { return hash_structure(c.mHashSet); }
 	static int id(const SUSet& c) { return c.mHashSet.mCrew.mData == nullptr ? -1 : al_id(c.get_allocator()); }
 	static void unusual(SUSet& c, char kind, int n);
 };
@@ -264,6 +366,8 @@ template<typename C, bool Multi> struct StdMapAd
 {
 	typedef C Cont; static const bool crew = true, multi = Multi, alloc_move_ctor = true, is_stdish = true;
 	static void ins(C& c, int64_t v) { c.emplace(E(v), E(v + 7)); }
+	static bool find(const C& c, int64_t v) { return c.find(E(v)) != c.end(); }
+	static void ilist(C& c) { c = { PairE(E(400001), E(400008)), PairE(E(400004), E(400011)) }; }
 	static void erase_all(C& c) { while (!c.empty()) c.erase(c.begin()); }
 	static void erase1(C& c, int64_t v) { c.erase(E(v)); }
 	static Vals contents(const C& c)
@@ -285,24 +389,28 @@ typedef momo::stdish::unordered_multimap<E, E, Hash, Eq, Al<PairE>> SUMMap;
 struct AdMap : StdMapAd<SMap, false>
 {
 	static SMap make(int id) { return SMap(Less(), mk_al<PairE>(id)); }
+	static std::string structure(const SMap& c) { return tree_structure(c.mTreeMap.mTreeSet); }
 	static int id(const SMap& c) { return c.mTreeMap.mTreeSet.mCrew.mData == nullptr ? -1 : al_id(c.get_allocator()); }
 	static void unusual(SMap&, char, int) { g_unusual = true; }
 };
 struct AdMMap : StdMapAd<SMMap, true>
 {
 	static SMMap make(int id) { return SMMap(Less(), mk_al<PairE>(id)); }
+	static std::string structure(const SMMap& c) { return tree_structure(c.mTreeMap.mTreeSet); }
 	static int id(const SMMap& c) { return c.mTreeMap.mTreeSet.mCrew.mData == nullptr ? -1 : al_id(c.get_allocator()); }
 	static void unusual(SMMap&, char, int) { g_unusual = true; }
 };
 struct AdUMap : StdMapAd<SUMap, false>
 {
 	static SUMap make(int id) { return SUMap(0, Hash(), Eq(), mk_al<PairE>(id)); }
+	static std::string structure(const SUMap& c) { return hash_structure(c.mHashMap.mHashSet); }
 	static int id(const SUMap& c) { return c.mHashMap.mHashSet.mCrew.mData == nullptr ? -1 : al_id(c.get_allocator()); }
 	static void unusual(SUMap& c, char kind, int n);
 };
 struct AdUMMap : StdMapAd<SUMMap, true>
 {
 	static SUMMap make(int id) { return SUMMap(0, Hash(), Eq(), mk_al<PairE>(id)); }
+	static std::string structure(const SUMMap& c) { return multi_structure(c.mHashMultiMap); }
 	static int id(const SUMMap& c) { return c.mHashMultiMap.mValueCrew.mData == nullptr ? -1 : al_id(c.get_allocator()); }
 	static void unusual(SUMMap& c, char kind, int)
 	{
@@ -345,7 +453,9 @@ void AdUMap::unusual(SUMap& c, char kind, int n) { if (kind == 'g' || kind == 'h
 #endif
 
 // ------------------------------------------------------------------------------------------- generic driver
-struct Case { std::string kind, op, ss, ts, post; int sid, tid, aid; };
+template<typename Ad, typename = void> struct HasMerge : std::false_type {};
+template<typename Ad> struct HasMerge<Ad, std::void_t<decltype(&Ad::merge)>> : std::true_type {};
+struct Case { std::string kind, op, ss, ts, post, sst, tst; int sid, tid, aid; };
 
 template<typename Ad> static void build(typename Ad::Cont& c, const std::string& st, int64_t base)
 {
@@ -355,7 +465,7 @@ template<typename Ad> static void build(typename Ad::Cont& c, const std::string&
 	for (int i = 0; i < n; ++i) Ad::ins(c, base + 3 * i);
 	if (Ad::multi && Ad::crew && k != 'c') for (int i = 0; i < n; i += 4) Ad::ins(c, base + 3 * i);   // duplicates
 	if (k == 'c') Ad::erase_all(c);
-	if (k == 'd' || k == 'v') Ad::unusual(c, k, n);
+	if (k == 'd' || k == 'v' || k == 'f') Ad::unusual(c, k, n);
 	if (k == 'i') g_unusual = true;
 }
 
@@ -384,6 +494,9 @@ template<typename Ad> static void run_case(const Case& cs, FILE* out)
 		std::unique_ptr<C> Tp(new C(Ad::make(cs.tid)));
 		build<Ad>(*Tp, cs.ts, 200000);
 		const Vals s0 = Ad::contents(S), t0 = Ad::contents(*Tp);
+		if (cs.op == "describe") { fprintf(out, "S:%s T:%s | orc=ok\n", Ad::structure(S).c_str(), Ad::structure(*Tp).c_str()); return; }
+		if (cs.sst != "*" && Ad::structure(S) != cs.sst) fail("source-structure-is-" + Ad::structure(S) + "-not-the-token");
+		if (cs.tst != "*" && Ad::structure(*Tp) != cs.tst) fail("target-structure-is-" + Ad::structure(*Tp) + "-not-the-token");
 		const std::string& op = cs.op;
 		bool newobj = (op == "copyc" || op == "copyca" || op == "movec" || op == "moveca");
 		bool none = (op == "none");
@@ -398,6 +511,7 @@ template<typename Ad> static void run_case(const Case& cs, FILE* out)
 		else if (op == "selfcopya") { C& r = S; S = r; }
 		else if (op == "selfmovea") { C& r = S; S = std::move(r); }
 		else if (op == "selfswap") Ad::swap(S, S);
+		else if (op == "merge") { if constexpr (HasMerge<Ad>::value) Ad::merge(*Tp, S); }     // TreeSet::MergeTo, target empty, equal managers (c7fda03)
 		uint64_t dc = w.n_copy - c0, dm = w.n_move - m0;
 		(void)a0;
 		C& T = *Tp;
@@ -423,9 +537,17 @@ template<typename Ad> static void run_case(const Case& cs, FILE* out)
 		std::string tie1;
 		{
 			char buf[64]; snprintf(buf, sizeof buf, " mv=%d cp=%d", dm > 0 && !iscopy, dc > 0);   // element moves inside a fresh copy are its own business
-			tie1 = "ok T=" + idstr(tId) + " S=" + idstr(sId) + " tc=" + show(tc) + " sc=" + show(sc) + buf;
+			bool ew = (op == "movea" || op == "moveca") && Ad::crew && sId != -1;      // element-wise path: rebuilt by insertion, shape not predicted
+			std::string tst2 = (self || none) ? "-" : ew ? "?" : Ad::structure(T);
+			std::string sst2 = sId == -1 ? "null" : ew ? "?" : Ad::structure(S);
+			tie1 = "ok T=" + idstr(tId) + " S=" + idstr(sId) + " tc=" + show(tc) + " sc=" + show(sc) + buf + " ts=" + tst2 + " ss=" + sst2;
 		}
 		tie = tie1;
+		if (op == "merge")
+		{
+			if (tc != s0 || !sc.empty()) fail("merge-into-empty-wrong");
+			C dead(std::move(S));      // the source's crew dies here; the target's node pools must not depend on it
+		}
 		if (iscopy)
 		{
 			Ad::ins(T, 777001); Ad::ins(T, 777002);
@@ -454,6 +576,7 @@ template<typename Ad> static void run_case(const Case& cs, FILE* out)
 		// ---- post operation on the source
 		C& T2 = *Tp;
 		C F = Ad::make(cs.aid);
+		std::unique_ptr<C> Xp; C* Fobs = &F;          // ccopy: the "fresh" object reported is the copy of S
 		bool useF = false;
 		const std::string& po = cs.post;
 		Vals f0;
@@ -471,13 +594,19 @@ template<typename Ad> static void run_case(const Case& cs, FILE* out)
 		else if (po == "massign") S = std::move(F);
 		else if (po == "cassign") S = F;
 		else if (po == "reuse") { Ad::ins(S, 400001); Ad::ins(S, 400004); }
+		else if (po == "fmove") { useF = true; F = std::move(S); }                       // S as the SOURCE of a move assignment
+		else if (po == "ccopy") { useF = true; Xp.reset(new C(S)); Fobs = Xp.get(); if (Ad::contents(*Fobs) != sBefore) fail("copy-of-source-differs"); }
+		else if (po == "find") { useF = true; bool fnd = Ad::find(S, 1003); bool exp = std::find(sBefore.begin(), sBefore.end(), 1003) != sBefore.end(); if (fnd != exp) fail("find-wrong"); if (fnd) Ad::ins(F, 1); }
+		else if (po == "ilist") { if constexpr (Ad::is_stdish && Ad::crew) Ad::ilist(S); }
 		uint64_t dc1 = w.n_copy - c1;
-		int s2 = Ad::id(S), fId = useF ? Ad::id(F) : -2;
-		Vals s2c = Ad::contents(S), fc = useF ? Ad::contents(F) : Vals();
+		int s2 = Ad::id(S), fId = useF ? Ad::id(*Fobs) : -2;
+		Vals s2c = Ad::contents(S), fc = useF ? Ad::contents(*Fobs) : Vals();
 		if (po == "clear" && !s2c.empty()) fail("clear-left-items");
 		if ((po == "swapf" || po == "fswap") && (s2c != f0 || fc != sBefore)) fail("post-swap-not-exact");
 		if (po == "massign" && (s2c != f0 || !fc.empty() || (dc1 != 0 && !(cs.kind == "ummap" && fId != -1)))) fail("post-move-assign-wrong");
 		if (po == "cassign" && (s2c != f0 || fc != f0)) fail("post-copy-assign-wrong");
+		if (po == "fmove" && (fc != sBefore || !s2c.empty())) fail("post-move-from-source-wrong");
+		if (po == "ilist" && Ad::is_stdish && Ad::crew && s2c != Vals({400001, 400004})) fail("post-ilist-wrong");
 		tie += " S2=" + idstr(s2) + " s2c=" + show(s2c) + " F=" + idstr(fId) + " fc=" + show(fc);
 		// ---- every container that has a manager: it must allocate through exactly that manager from now on
 		if (Ad::id(S) != -1)
@@ -493,7 +622,7 @@ template<typename Ad> static void run_case(const Case& cs, FILE* out)
 			if (got != -2 && got != want && TRAITS_IS_STATEFUL) fail("target-allocates-through-" + std::to_string(got) + "-but-holds-" + std::to_string(want));
 			if (Ad::contents(T2).size() != before + 70) fail("target-not-usable");
 		}
-		if (useF && Ad::id(F) != -1) { std::string d; probe_alloc<Ad>(F, d); why += d; }
+		if (useF && Ad::id(*Fobs) != -1) { std::string d; probe_alloc<Ad>(*Fobs, d); why += d; }
 		if (g_value_error) fail("mapped-value-corrupted");
 	}
 	if (w.live_blocks() != 0) fail("leaked-blocks:" + std::to_string(w.live_blocks()));
@@ -515,6 +644,7 @@ static bool dispatch(const Case& cs, FILE* out)
 	else if (cs.kind == "HashMulti") run_case<AdHashMulti>(cs, out);
 	else if (cs.kind == "TreeSet") run_case<AdTreeSet>(cs, out);
 	else if (cs.kind == "TreeMap") run_case<AdTreeMap>(cs, out);
+	else if (cs.kind == "DataTable") run_case<AdTable>(cs, out);
 	else return false;
 #else
 	if (cs.kind == "vec") run_case<AdVec>(cs, out);
@@ -534,11 +664,14 @@ static bool dispatch(const Case& cs, FILE* out)
 
 int main()
 {
-	char line[512];
+	static char line[70000];
 	while (fgets(line, sizeof line, stdin))
 	{
 		char trs[32], kind[32], op[32], ss[32], ts[32], post[32]; Case cs;
-		if (sscanf(line, "%31s %31s %31s %31s %31s %d %d %d %31s", trs, kind, op, ss, ts, &cs.sid, &cs.tid, &cs.aid, post) != 9) { puts("? | orc=unparsable-case"); continue; }
+		static char sst[30000], tst[30000];
+		int nf = sscanf(line, "%31s %31s %31s %31s %31s %d %d %d %31s %29999s %29999s", trs, kind, op, ss, ts, &cs.sid, &cs.tid, &cs.aid, post, sst, tst);
+		if (nf != 9 && nf != 11) { puts("? | orc=unparsable-case"); continue; }
+		cs.sst = nf == 11 ? sst : "*"; cs.tst = nf == 11 ? tst : "*";
 #ifdef NATIVE
 		if (strcmp(trs, "N") != 0) { puts("wrong-binary | orc=wrong-binary"); continue; }
 #else
